@@ -350,6 +350,12 @@ type Stream struct {
 	// in PQS layouts of this stream every record query must have been served from the persistent-query
 	// results (the server's own log line says "0 raw search N pqs")
 	RequirePqs bool
+	// block-scheduler stream: the same physical layout is run under several GOMAXPROCS values (WideOf: layout ->
+	// the layout that differs only in taking all blocks in one fetch), RefName = in-order ingest; the ordered
+	// hits of every record query are compared with the scheduler model inside Coq
+	Batching bool
+	WideOf   map[string]string
+	RefName  string
 }
 
 type streamResult struct {
@@ -484,6 +490,7 @@ type evalCtx struct {
 	pflag []string
 	bidx  []string
 	e2e   []string
+	fetch []string
 	mu    sync.Mutex
 	cfg   vhlib.Config
 	nfail map[string]int
@@ -557,6 +564,9 @@ func (c *evalCtx) evaluate(st Stream, res streamResult) {
 				}
 				c.e2e = append(c.e2e, fmt.Sprintf("(%s, %d%%N, %s, %s)", vhlib.CoqList(bs), q.ROp, cbytes(q.RLit), idl))
 			}
+			if st.Batching && l.KeepOrder && q.Stats == nil && got.Err == "" {
+				c.fetchCase(st, l, q, out, got)
+			}
 			if obsKey(got) == obsKey(want[qi]) {
 				continue
 			}
@@ -592,9 +602,11 @@ func (c *evalCtx) evaluate(st Stream, res streamResult) {
 				} else if ro != nil {
 					got = ro.Obs[qi]
 				}
+				class = c.classifyBatching(st, l, out, got, want[qi], res, qi)
 				dim := layoutDim(l)
 				baseOK := base >= 0 && res.errs[base] == nil && obsKey(res.outs[base].Obs[qi]) == obsKey(want[qi])
 				switch {
+				case class != "":
 				case got.Err != "":
 					class = "query_error_in_layout"
 				case dim == "pqs" && extraLackColumn(st.Events, q, got, want[qi]):
@@ -631,6 +643,9 @@ func (c *evalCtx) evaluate(st Stream, res streamResult) {
 			detail := fmt.Sprintf("query `%s` over %d events, layout %s (flush every %d, rotate every %d, final rotate %v, card %d, pqs %v, aggs %v, procs %d): got %s, events say %s", q.Text, len(st.Events), l.Name, l.Every, l.Rotate, l.Final, l.Card, l.PQS, l.Aggs, l.Procs, obsKey(got), obsKey(want[qi]))
 			if other != "" {
 				detail += "; layout " + other + " gives the expected answer"
+			}
+			if st.Batching {
+				detail += fmt.Sprintf("; blocks in ingest order (event id = rank of its timestamp) %s, GOMAXPROCS=%d = blocks taken per fetch", blocksText(l, len(st.Events)), out.GoMaxProcs)
 			}
 			c.sum.Fail(class, detail, map[string]interface{}{"stream": st.Name, "events": docs, "layout": l, "query": q.Text, "got": got, "want": want[qi]})
 		}
@@ -834,6 +849,99 @@ func (c *evalCtx) windowCases(st Stream, l LayoutCfg, out *WorkerOut) {
 		}
 		c.win = append(c.win, vhlib.CoqList(evItems))
 	}
+}
+
+func blocksText(l LayoutCfg, n int) string {
+	var sb strings.Builder
+	for si, sg := range allSegments(l, n) {
+		if si > 0 {
+			sb.WriteString(" | ")
+		}
+		for _, b := range sg {
+			sb.WriteString(fmt.Sprint(b))
+		}
+	}
+	return sb.String()
+}
+
+// every segment of a layout (rotated ones and the trailing open one), as blocks of event indices
+func allSegments(l LayoutCfg, n int) [][][]int {
+	blocks := layoutBlocks(l, n)
+	if l.Rotate <= 0 {
+		return [][][]int{blocks}
+	}
+	var segs [][][]int
+	for i := 0; i < len(blocks); i += l.Rotate {
+		j := i + l.Rotate
+		if j > len(blocks) {
+			j = len(blocks)
+		}
+		segs = append(segs, blocks[i:j])
+	}
+	return segs
+}
+
+// which kind of failing input is it when a layout of the block-scheduler stream disagrees with the events
+func (c *evalCtx) classifyBatching(st Stream, l LayoutCfg, out *WorkerOut, got, want Obs, res streamResult, qi int) string {
+	if !st.Batching {
+		return ""
+	}
+	agrees := func(name string) bool {
+		for lj, x := range st.Layouts {
+			if x.Name == name && name != l.Name && res.errs[lj] == nil && res.outs[lj] != nil && len(res.outs[lj].Obs) == len(st.Queries) {
+				return obsKey(res.outs[lj].Obs[qi]) == obsKey(want)
+			}
+		}
+		return false
+	}
+	nblocks := len(layoutBlocks(l, len(st.Events)))
+	if agrees(st.WideOf[l.Name]) {
+		// the same files answer correctly when all blocks are taken in one fetch
+		if missingOnly(got, want) && out.GoMaxProcs < nblocks {
+			return "fewer_procs_than_blocks_loses_events"
+		}
+		return "parallelism_changes_answer"
+	}
+	if len(l.Perm) > 0 && agrees(st.RefName) {
+		// same events, same flush/rotation history, only the arrival order (hence the block time ranges) differs
+		return "block_time_overlap_changes_answer"
+	}
+	return ""
+}
+
+// Coq case of the scheduler model: GOMAXPROCS, the layout's segments with the block summaries (min/max timestamp of
+// ALL events of the block) and the records matching the query, and the ids in the order the real system returned them
+func (c *evalCtx) fetchCase(st Stream, l LayoutCfg, q Query, out *WorkerOut, got Obs) {
+	ts := func(ei int) uint64 { return tsBase + uint64(st.Events[ei].Id)*1000 }
+	var segs []string
+	for _, sg := range allSegments(l, len(st.Events)) {
+		var bl []string
+		for _, b := range sg {
+			lo, hi := ts(b[0]), ts(b[0])
+			var rs []string
+			for _, ei := range b {
+				if t := ts(ei); t < lo {
+					lo = t
+				} else if t > hi {
+					hi = t
+				}
+				if q.P.match(st.Events[ei]) {
+					rs = append(rs, fmt.Sprintf("(%d, %d)", ts(ei), st.Events[ei].Id))
+				}
+			}
+			bl = append(bl, fmt.Sprintf("(%d, %d, %s)", lo, hi, vhlib.CoqList(rs)))
+		}
+		segs = append(segs, vhlib.CoqList(bl))
+	}
+	ids := make([]string, len(got.Order))
+	for i, x := range got.Order {
+		if x < 0 {
+			x = 1 << 40 // a hit without id: never equal to a model id
+		}
+		ids[i] = strconv.Itoa(x)
+	}
+	c.fetch = append(c.fetch, fmt.Sprintf("(%d%%nat, %s, %s)", out.GoMaxProcs, vhlib.CoqList(segs), vhlib.CoqList(ids)))
+	c.sum.Count("e2e/fetch_order_vs_scheduler_model")
 }
 
 // ---------- generators ----------
@@ -1298,6 +1406,99 @@ func numStrStream(rng *vhlib.Rng, idx int, thorough bool) Stream {
 		}}
 }
 
+// block-scheduler family: the events' timestamps are NOT in arrival order, so the time ranges of the blocks overlap
+// or are nested (a late event with the oldest timestamp lands in the newest block; the newest event arrives first;
+// blocks arrive newest first; a random order), there are more blocks than GOMAXPROCS in some layouts and fewer in
+// their twins, on rotated / open / several segments (whose time ranges then overlap too) and one PQS layout.
+// Oracle: the events; classes by twin (same files, all blocks in one fetch) and by the in-order reference.
+func blockTimeStream(rng *vhlib.Rng, idx int, thorough bool) Stream {
+	k := rng.Range(2, 3)
+	nb := rng.Range(6, 8)
+	if thorough {
+		nb = rng.Range(5, 14)
+	}
+	n := k * nb
+	evs := make([]Event, n)
+	for i := range evs {
+		e := Event{Id: i}
+		e.set("n", iv(int64(i)))
+		e.set("w", sv(vhlib.Pick(rng, []string{"alpha", "beta", "gamma"})))
+		e.set("g", sv(vhlib.Pick(rng, grpPool)))
+		evs[i] = e
+	}
+	evs[0].set("w", sv("alpha")) // the late event matches the word queries
+	ident := make([]int, n)
+	for i := range ident {
+		ident[i] = i
+	}
+	d := rng.Range(1, k-1) // number of late events: they share the newest block with k-d of the newest events
+	late := append(append([]int{}, ident[d:]...), ident[:d]...)
+	early := append([]int{n - 1}, ident[:n-1]...)
+	var rev []int
+	for b := nb - 1; b >= 0; b-- {
+		rev = append(rev, ident[b*k:(b+1)*k]...)
+	}
+	shuf := append([]int{}, ident...)
+	for i := n - 1; i > 0; i-- {
+		j := rng.Intn(i + 1)
+		shuf[i], shuf[j] = shuf[j], shuf[i]
+	}
+	// late events spread over the later blocks: the first block holds the k oldest of the recent events, every later
+	// block k-1 recent events and one event of the era before them (nb-1 such events, oldest timestamps)
+	var spread []int
+	{
+		old := ident[:nb-1]
+		rest := ident[nb-1:]
+		spread = append(spread, rest[:k]...)
+		rest = rest[k:]
+		for b := 1; b < nb; b++ {
+			spread = append(spread, rest[:k-1]...)
+			rest = rest[k-1:]
+			spread = append(spread, old[b-1])
+		}
+	}
+	const wide = 16
+	var layouts []LayoutCfg
+	wideOf := map[string]string{}
+	add := func(tag string, perm []int, base LayoutCfg, procs ...int) {
+		for _, p := range procs {
+			l := base
+			l.Name = fmt.Sprintf("%s_p%d", tag, p)
+			l.Every, l.Aggs, l.Procs, l.KeepOrder = k, true, p, true
+			l.Perm = perm
+			wideOf[l.Name] = fmt.Sprintf("%s_p%d", tag, wide)
+			layouts = append(layouts, l)
+		}
+	}
+	add("ord_rot", nil, LayoutCfg{Final: true}, wide, 1)
+	add("late_rot", late, LayoutCfg{Final: true}, wide, 1, 2, 3)
+	add("late_open", late, LayoutCfg{Final: false}, wide, 2)
+	add("late_segs", late, LayoutCfg{Rotate: 3, Final: false}, wide, 2)
+	add("late_pqs", late, LayoutCfg{Final: true, PQS: true}, wide, 2)
+	add("early_rot", early, LayoutCfg{Final: true}, wide, 1, 2)
+	add("rev_rot", rev, LayoutCfg{Final: true}, wide, 2)
+	add("rev_segs", rev, LayoutCfg{Rotate: 2, Final: true}, wide, 1)
+	add("spread_rot", spread, LayoutCfg{Final: true}, wide, 2, 3)
+	add("shuf_rot", shuf, LayoutCfg{Final: true}, wide, 1, 2)
+	add("shuf_open", shuf, LayoutCfg{Final: false}, wide, 3)
+	kNew := int64(n - k - 1) // the newest events only
+	kOld := int64(k + 1)     // the oldest events only (the late ones among them)
+	qs := []Query{
+		{Text: "*", P: pAll{}, Kind: "all"},
+		{Text: "w=alpha", P: pStrEq{"w", "alpha", false}, Kind: "text"},
+		{Text: "alpha", P: pWord{"alpha"}, Kind: "text"},
+		{Text: "NOT w=alpha", P: pNot{pStrEq{"w", "alpha", false}}, Kind: "bool"},
+		cmpQ("n", 5, strconv.FormatInt(kNew, 10)),
+		cmpQ("n", 2, strconv.FormatInt(kOld, 10)),
+		{Text: "w=beta OR n<" + strconv.FormatInt(kOld, 10), P: pOr{pStrEq{"w", "beta", false}, pCmp{"n", 2, float64(kOld)}}, Kind: "bool"},
+		{Text: "* | stats count", P: pAll{}, Kind: "stats", Stats: []string{"count"}},
+		{Text: "* | stats count, sum(n) by g", P: pAll{}, Kind: "stats", Stats: []string{"count", "sum(n)"}, By: "g"},
+		{Text: "n<" + strconv.FormatInt(kOld, 10) + " | stats count by w", P: pCmp{"n", 2, float64(kOld)}, Kind: "stats", Stats: []string{"count"}, By: "w"},
+	}
+	return Stream{Name: fmt.Sprintf("bt%d", idx), Events: evs, Layouts: layouts, Queries: qs,
+		Batching: true, WideOf: wideOf, RefName: fmt.Sprintf("ord_rot_p%d", wide)}
+}
+
 func runMeta(cfg vhlib.Config, sum *vhlib.Summary, rng *vhlib.Rng) {
 	ctx := &evalCtx{sum: sum, cfg: cfg}
 	nmain := 8
@@ -1329,7 +1530,16 @@ func runMeta(cfg vhlib.Config, sum *vhlib.Summary, rng *vhlib.Rng) {
 	for i := 0; i < nns; i++ {
 		streams = append(streams, numStrStream(rng.Fork(), i, cfg.Thorough()))
 	}
-	streams = append(streams, knownStreams(rng.Fork())...)
+	nbt := 2
+	if cfg.Thorough() {
+		nbt = 16
+	}
+	known := knownStreams(rng.Fork())
+	brng := rng.Fork() // forked after every earlier stream: their inputs stay what they were
+	for i := 0; i < nbt; i++ {
+		streams = append(streams, blockTimeStream(brng.Fork(), i, cfg.Thorough()))
+	}
+	streams = append(streams, known...)
 	// streams run one after the other, the layouts of a stream in parallel worker processes
 	for _, st := range streams {
 		res := runStream(cfg.Out, st, 10)
@@ -1350,4 +1560,12 @@ func runMeta(cfg vhlib.Config, sum *vhlib.Summary, rng *vhlib.Rng) {
 	shard(sum, cfg.Out, "cases_window", "check_window", ctx.win, 60)
 	shard(sum, cfg.Out, "cases_block_index", "check_block_index", ctx.bidx, 300)
 	shard(sum, cfg.Out, "cases_pqs_flag", "check_pqs_flag", ctx.pflag, 400)
+	for i, k := 0, 0; i < len(ctx.fetch); i, k = i+250, k+1 {
+		j := i + 250
+		if j > len(ctx.fetch) {
+			j = len(ctx.fetch)
+		}
+		sum.WriteCaseFile(cfg.Out, fmt.Sprintf("cases_fetch_%02d", k), "From SigM Require Import Base SortCmd Sched Fetch.\n",
+			"Definition cases : list fetch_case := "+vhlib.CoqListNL(ctx.fetch[i:j])+".\n", "check_fetch cases", j-i)
+	}
 }
